@@ -226,18 +226,20 @@ def resolver_used(ck):
     ck.floor("C01.2 Aligner constructions in the factory", seen, 1)
     # resolveConflicts itself: fewer than two segments pass through unchanged, otherwise the pairwise pass runs
     rc = p.find_method("AlignmentSegmentConflictResolver", "resolveConflicts")
+    from ..rules.common import select_cases
     for pa in explore(ck, rc):
-        if pa.outcome != "return":
-            continue
-        v = pa.value
+      if pa.outcome != "return":
+          continue
+      for v, extra in select_cases(pa.value):
         segs = dict(v[2]).get("segments") if v[0] == "new" else None
         if segs is None:
             raise AnalysisError(f"{where(rc, pa.node)}: resolveConflicts does not return AlignmentSegmentsWithResolvedConflicts")
         want = T.mk_lt(T.mk_call("len", [V("segments")]), C(2))
+        assumptions = [(c, tv) for c, tv, _ in pa.state.assumptions] + list(extra)
         if segs == V("segments"):
-            asserted = [c for c, tv, _ in pa.state.assumptions if tv and c[0] in ("lt", "le") and
+            asserted = [c for c, tv in assumptions if tv and c[0] in ("lt", "le") and
                         T.contains(c, T.mk_call("len", [V("segments")]))]
-            negated = [T.mk_not(c) for c, tv, _ in pa.state.assumptions if not tv and
+            negated = [T.mk_not(c) for c, tv in assumptions if not tv and
                        T.contains(c, T.mk_call("len", [V("segments")]))]
             conds = asserted + negated
             if not conds:
@@ -262,9 +264,16 @@ def pairwise_pass(ck, rule):
     p = ctx.p
     cls = p.find_class("AlignmentSegmentConflictResolver")
     fn = None
-    for m in cls.methods.values():
-        if any(isinstance(n, ast.For) for n in ast.walk(m.node)) and "resolveConflict" in ast.unparse(m.node):
+    with_loop = [m for m in cls.methods.values() if any(isinstance(n, ast.For) for n in ast.walk(m.node))]
+    for m in with_loop:
+        if "resolveConflict" in ast.unparse(m.node):
             fn = m
+    if fn is None:
+        # the step may have been moved into a helper: the loop is in the method whose explored paths (helpers that did not
+        # exist on the pinned tree are followed) store into a list twice
+        for m in with_loop:
+            if any(sum(1 for e in pa.events if e.kind == "setitem") >= 2 for pa in explore(ck, m, unroll=(1,))):
+                fn = m
     if fn is None:
         raise AnalysisError(f"{cls.where}: pairwise resolution loop not found in the resolver")
     rets = [n for n in ast.walk(fn.node) if isinstance(n, ast.Return) and isinstance(n.value, ast.Name)]
@@ -368,11 +377,25 @@ def _pair_generator(ck, gen_fn, n):
                           and e.term[2] and e.term[2][0] == a]
             desc = f"zip(tee(...)[0], tee(...)[1]) over {T.show(base)}, second iterator advanced {len(advanced)}x, first {len(advanced_a)}x"
             return (base == rng and len(advanced) == 1 and not advanced_a), desc
-        # idiom B: zip(range(n-1), range(1, n))
-        if a == T.mk_call("range", [T.p_sub(n, C(1))]) and b in (T.mk_call("range", [C(1), n]),):
-            return True, T.show(v)
-        if a[0] == "call" and a[1] == "range" and b[0] == "call" and b[1] == "range":
-            return False, T.show(v)
+        # idiom B: zip(range(0, s0), range(1, s1)) yields (k, k+1) for k < min(s0, s1 - 1); that is n-1 pairs iff
+        # min(s0, s1 - 1) == n - 1
+        def rng_of(r):
+            if r[0] == "call" and r[1] == "range" and not r[3]:
+                if len(r[2]) == 1:
+                    return C(0), r[2][0]
+                if len(r[2]) == 2:
+                    return r[2][0], r[2][1]
+            return None
+        ra, rb = rng_of(a), rng_of(b)
+        if ra is not None and rb is not None:
+            if ra[0] != C(0) or rb[0] != C(1):
+                return False, T.show(v)
+            la, lb = ra[1], T.p_sub(rb[1], C(1))          # numbers of elements
+            want = T.p_sub(n, C(1))
+            da, db = T.p_sub(la, want), T.p_sub(lb, want)  # both must be >= 0 and one of them == 0
+            if T.is_num_const(da) and T.is_num_const(db):
+                return (min(da[1], db[1]) == 0), T.show(v)
+            return None, T.show(v)
         # idiom C: zip(r, r[1:])
         if b == ("slice", a, C(1), T.NONE, T.NONE):
             return (a in (rng, T.mk_call("list", [rng]))), T.show(v)
